@@ -108,7 +108,8 @@ OVERLOADED = {"sbe_schema_validator::validate_encoding", "sbe_schema_validator::
 
 
 MUTATORS = {"insert", "emplace", "try_emplace", "emplace_back", "push_back", "erase", "clear", "create"}
-EFFECT_CLASSES = ("sbe_schema_validator::", "sbe_schema_cpp_validator::")
+EFFECT_CLASSES = ("sbe_schema_validator::", "sbe_schema_cpp_validator::", "(anonymous namespace)::parse_command_line",
+                  "(anonymous namespace)::get_option_value", "main")
 LAYOUT_FUNCS_OLD = ("sbe_schema_validator::validate_field_offset", "sbe_schema_validator::validate_element_offset",
                 "sbe_schema_validator::validate_block_length")
 
@@ -140,6 +141,19 @@ def effects_of(fn):
             if is_member:
                 args = ", ".join(opt_norm(gen.expr_text(a, 0, fn)) for a in n.get("args") or [])
                 out.append((opt_norm(gen.expr_text(o, 0, fn)), "." + n["callee"]["name"], args[:160], guard_of(fn, n, par)))
+    if fn["file"].endswith("main.cpp"):
+        # the command line parser: loop counter steps, the loop header and calls that end the process
+        for n in walk(fn["body"]):
+            k = n.get("k")
+            if k == "UnaryOperator" and n.get("op") in ("++", "--"):
+                out.append((opt_norm(gen.expr_text(n["sub"], 0, fn)), n["op"], "", guard_of(fn, n, par)))
+            elif k == "ForStmt" and n.get("cond") is not None:
+                out.append(("for", "while", " && ".join(sorted(norm_cond(n["cond"], True, fn))) + " ; " +
+                            (opt_norm(gen.expr_text(n["inc"], 0, fn)) if n.get("inc") is not None else ""), guard_of(fn, n, par)))
+            elif k == "CallExpr" and (n.get("callee") or {}).get("name") in ("print_help_and_exit", "print_version_and_exit", "exit",
+                                                                            "parse_command_line", "get_option_value"):
+                out.append(((n["callee"]["name"]), ".call", ", ".join(opt_norm(gen.expr_text(a, 0, fn)) for a in n.get("args") or [])[:120],
+                            guard_of(fn, n, par)))
     # calls that update a variable of the caller through a non-const reference parameter (advance_offset(current_offset, ...))
     byk = _fn_by_key()
     for n in walk(fn["body"]):
